@@ -23,7 +23,7 @@ REQUIRED = [
     "signjws_no_private_jwk", "store_signjws_headers", "store_key_as_jwk_header_refused", "signjws_rule_is_signer_typed",
     "api_surface_by_kid", "private_key_typed_results_pinned",
     "fact_kid_pattern", "fact_dot_names_refused", "fact_fs_entry_types_plain", "fact_vault_path_name_plain",
-    "fact_fs_path_construction", "fact_vault_path_construction", "fact_every_backend_wrapped",
+    "fact_fs_path_construction", "fact_vault_path_construction", "fact_vault_methods_use_key_path", "fact_vault_path_name", "fact_every_backend_wrapped",
     "fact_new_key_name_is_uuid_and_validate_shape", "fact_key_lookups", "fact_store_key_types_are_signers",
     "fact_signjws_sequence", "fact_inventory_nontrivial",
 ]
@@ -110,7 +110,8 @@ def run(ctx):
             hits = can.get("hits") or []
             ctx.cov["api_tour_canary_scan_EXPLORATION"] = {k: can.get(k) for k in
                                                           ("keys", "canaries", "requests", "statuses", "bytes_scanned", "sinks", "tokens_issued",
-                                                           "scanner_positive_control", "sign_jws_200_with_private_jwk_object")}
+                                                           "scanner_positive_control", "sign_jws_200_with_private_jwk_object",
+                                                           "tokens_not_bound_to_requested_kid")}
             ctx.cov["api_tour_canary_scan_EXPLORATION"]["hits"] = len(hits)
             ctx.oblige("exploration:api-tour-ran", bool(can.get("scanner_positive_control")) and can.get("requests", 0) > 0, str(can.get("requests")))
             for h in hits[:3]:
@@ -120,6 +121,10 @@ def run(ctx):
             if can.get("sign_jws_200_with_private_jwk_object"):
                 ctx.violation("C03:api:sign_jws-accepted-private-jwk-header", "POST sign_jws answered 200 for a headers.jwk object carrying d",
                               "api-private-jwk.txt", json.dumps(can.get("statuses")))
+            if can.get("tokens_not_bound_to_requested_kid"):
+                ctx.violation("C03:api:token-not-signed-by-the-requested-kid", "crypto API returned a token that does not verify with exactly the requested kid's key: "
+                              + "; ".join(can.get("tokens_not_bound_examples") or []), "api-token-binding.txt", json.dumps(can.get("tokens_not_bound_examples")))
+            ctx.oblige("oracle:api-tokens-bound-to-requested-kid(impl)", not can.get("tokens_not_bound_to_requested_kid"), str(can.get("tokens_not_bound_to_requested_kid")))
             ctx.oblige("exploration:api-tour-no-hit", not hits and not can.get("sign_jws_200_with_private_jwk_object"), f"{len(hits)} hits")
             continue
         ops_p, impl_p, model_p = (os.path.join(out, f"{part}_{x}") for x in ("ops.jsonl", "impl.out", "model.out"))
@@ -197,6 +202,27 @@ def run(ctx):
         for i, line in enumerate(impl):
             op = json.loads(ops[i]) if i < len(ops) and ops[i] else {}
             distinct.add(("vault", op.get("prefix"), op.get("kid")))
+            if op.get("op") == "vaultuse":
+                # direct oracle: every path the REAL vault backend sent to the client for this name is <clean prefix>/nuts-private-keys/<name>;
+                # a refused name reaches the client with no path at all
+                mu = re.fullmatch(r"vaultuse res=(\S+) paths=\[([0-9a-f,]*)\] left=(\d+)", line)
+                if not mu:
+                    found_violation |= ctx.violation("C03:vault:panic-or-garbage", line[:200], "vault-garbage.jsonl", ops[i])
+                    continue
+                pfx, kid = unhex(op["prefix"]), unhex(op["kid"])
+                base = go_clean(pfx)
+                want = (b"/" if base == b"/" else (b"" if base == b"." else base + b"/")) + b"nuts-private-keys/" + kid
+                seen = [unhex(x) for x in mu.group(2).split(",") if x]
+                refused = mu.group(1).startswith("invalid-key-id")
+                if (refused and seen) or (not refused and (any(p_ != want for p_ in seen) or b"/" in kid or kid in (b".", b".."))):
+                    esc += 1
+                    found_violation |= ctx.violation("C03:vault:backend-method-addresses-path-outside-namespace",
+                                                     f"key name {kid!r} (refused={refused}), prefix {pfx!r}: Vault client saw {seen[:4]}, expected only {want!r}",
+                                                     "vault-method-escape.jsonl", ops[i])
+                if not refused and mu.group(1) != "ok,ok/true,ok/true,ok":
+                    found_violation |= ctx.violation("C03:vault:accepted-name-not-stored-and-found-under-its-own-path", line[:200], "vault-roundtrip.jsonl", ops[i])
+                acc += 0 if refused else 1
+                continue
             m = re.fullmatch(r"vaultpath acc=([01]) ([0-9a-f]*)", line)
             if not m:
                 found_violation |= ctx.violation("C03:vault:panic-or-garbage", line[:200], "vault-garbage.jsonl", ops[i])
@@ -270,6 +296,24 @@ def run(ctx):
                 found_violation |= ctx.violation("C03:ks:%s-succeeded-for-a-kid-without-key-reference" % k,
                                                  f"{k} for kid {op.get('kid')!r} succeeded although no New/Link/Migrate bound that kid in this history: {line[:120]}",
                                                  "ks-unknown-kid.jsonl", "\n".join(ops[seq_start:i + 1]))
+            if "RETURNED-NON-PUBLIC-KEY" in line:
+                found_violation |= ctx.violation("C03:ks:%s-returned-a-private-key-as-public-key" % k,
+                                                 f"{k} handed out a non-public key value to its caller (callers publish it in DID documents): {line[:200]}",
+                                                 "ks-private-as-public.jsonl", "\n".join(ops[seq_start:i + 1]))
+            if "JWK-HEADER-" in line:
+                found_violation |= ctx.violation("C03:ks:%s-token-jwk-header-%s" % (op.get("how", k), "has-secret" if "SECRET" in line else "not-signing-key"),
+                                                 f"token signed for kid {op.get('kid')!r}: {line[:220]}",
+                                                 "ks-token-jwk-header.jsonl", "\n".join(ops[seq_start:i + 1]))
+            if k in ("signjws", "signjwt") and op.get("found") is False and re.search(r" ok kid=", line):
+                found_violation |= ctx.violation("C03:%s:%s-signed-for-a-kid-it-does-not-hold" % (k, op.get("via")),
+                                                 f"{op.get('via')} signer produced a token for kid {op.get('kid')!r} which it does not hold: {line[:160]}",
+                                                 "sign-for-foreign-kid.jsonl", ops[i])
+            if k == "jwkclass":
+                jid = op.get("id", "")
+                if jid.endswith("Priv") and "didjwk=forbidden-private" not in line:
+                    found_violation |= ctx.violation("C03:didjwk:private-jwk-%s-not-refused" % jid, line[:200], "didjwk-private.jsonl", ops[i])
+                if jid in STORE_KEY_JWKS and "dpop-private=true" not in line:
+                    found_violation |= ctx.violation("C03:dpop:private-jwk-%s-not-refused" % jid, line[:200], "dpop-private.jsonl", ops[i])
             if "DECOY" in line:
                 found_violation |= ctx.violation("C03:ks:%s-touched-key-file-outside-key-dir" % k,
                                                  f"{k} for kid {op.get('kid')!r} reached the decoy key file outside the key directory: {line[:160]}",
@@ -296,7 +340,7 @@ def run(ctx):
                         found_violation |= ctx.violation("C03:ks:signature-not-by-the-key-published-for-kid",
                                                          f"kid {op.get('kid')!r}: New returned K{published[op['kid']]}, signature verifies with {vs[0]}",
                                                          "ks-binding.jsonl", "\n".join(ops[seq_start:i + 1]))
-                    if m.group(2).strip() and "DECOY" not in m.group(2):
+                    if "KID-HEADER=" in m.group(2):
                         found_violation |= ctx.violation("C03:ks:kid-header-differs-from-requested-kid", line[:200], "ks-kid-header.jsonl",
                                                          "\n".join(ops[seq_start:i + 1]))
             elif k in ("signjws", "signjwt"):
